@@ -138,6 +138,14 @@ func ghost_last_notifyDeletion_value[V any]() V                            { pan
 func ghost_last_notifyDeletion_cause() DeletionCause                       { panic("ghost") }
 func ghost_last_runTask_t[K comparable, V any]() *task[K, V]               { panic("ghost") }
 func ghost_calls_wait() int                                                { panic("ghost") }
+func ghost_calls_bulkRefreshKeys() int                                     { panic("ghost") }
+
+// ghost_waited(c): this operation has waited for call c (so c's outcome fields are final)
+func ghost_waited[K comparable, V any](c *call[K, V]) bool { panic("ghost") }
+
+// A-buffer: ghost_buffered(t) - the write buffer holds (owns) the event t. Only assumed facts talk about it: an event
+// handed out by TryPop was buffered; the event a writer still holds after TryPush refused it is not.
+func ghost_buffered[K comparable, V any](t *task[K, V]) bool { panic("ghost") }
 
 // the value received by the last gob Decode into an Entry (see the encoding/gob model)
 func ghost_decoded_Key[K comparable]() K     { panic("ghost") }
@@ -402,35 +410,61 @@ func estOf[K comparable](s *sketch[K], k K) uint64 {
 // footprint of a maintenance run: the policies, the wheel, the table (evictions), and the removal notifications of the entries it evicts
 //@ macro MAINT0 = node::state, node::queueType, node::prev, node::next, node::prevExp, node::nextExp, ghost_tbl(*), ghost_calls(*), ghost_inWheel(*), ghost_inDeque(*), policy::weightedSize, policy::windowMaximum, policy::windowWeightedSize, policy::mainProtectedMaximum, policy::mainProtectedWeightedSize, policy::stepSize, policy::adjustment, policy::hitsInSample, policy::missesInSample, policy::previousSampleHitRate, Variable::*, Linked::*, sketch::*, []uint64::*, cache::drainStatus, cache::evictionMutex, ghost_calls_evictNode(), ghost_calls_rand(), ghost_ret_rand(), $EVLOG, $ONDEL, $ATOMICEV
 // ... plus the call log of the maintenance steps and the clock reading of the sweep
-//@ macro MAINT = $MAINT0, ghost_calls_maintenance(), ghost_calls_runTask(), ghost_calls_expireNodes(), ghost_calls_evictNodes(), ghost_calls_DeleteExpired(), ghost_calls_deleteExpiredFromBucket(), ghost_calls_expireNode(), ghost_now(), ghost_clockRead()
+//@ macro MAINT = $MAINT0, ghost_calls_maintenance(), ghost_calls_runTask(), ghost_calls_expireNodes(), ghost_calls_evictNodes(), ghost_calls_DeleteExpired(), ghost_calls_deleteExpiredFromBucket(), ghost_calls_expireNode(), ghost_now(), ghost_clockRead(), task::*
 
-//@ macro CACHEFX = $MAINT, $EVLOG, $ONDEL, $ATOMICEV, $WHOOKS, ghost_calls(*), node::expiresAt, node::refreshableAt, ghost_wgDone(*), call::wg, ghost_calls_afterWrite(), ghost_calls_afterDelete(), ghost_queued(), ghost_calls_performCleanUp(), ghost_calls_afterWriteTask(), ghost_calls_runTask(), ghost_calls_getTask(), ghost_now(), ghost_clockRead(), ghost_calls_ExpireAfterRead(), ghost_ret_ExpireAfterRead(), task::*
+//@ macro CACHEFX = $MAINT, $EVLOG, $ONDEL, $ATOMICEV, $WHOOKS, ghost_calls(*), node::expiresAt, node::refreshableAt, ghost_wgDone(*), call::wg, ghost_calls_afterWrite(), ghost_calls_afterDelete(), ghost_queued(), ghost_calls_performCleanUp(), ghost_calls_afterWriteTask(), ghost_calls_runTask(), ghost_calls_getTask(), ghost_now(), ghost_clockRead(), ghost_calls_ExpireAfterRead(), ghost_ret_ExpireAfterRead(), task::*, ghost_buffered(*)
 
-//@ macro LOADFX = $CACHEFX, call::value, call::err, call::isNotFound, ghost_calls_load(), ghost_calls_afterFinish(), ghost_calls_doCall(), ghost_calls_startCall(), ghost_loadSuccess(), ghost_loadFailure(), ghost_calls_fn(), ghost_ret_fn(), ghost_calls_Error(), ghost_calls_wait()
+//@ macro LOADFX = $CACHEFX, call::value, call::err, call::isNotFound, ghost_calls_load(), ghost_calls_afterFinish(), ghost_calls_doCall(), ghost_calls_startCall(), ghost_loadSuccess(), ghost_loadFailure(), ghost_calls_fn(), ghost_ret_fn(), ghost_calls_Error(), ghost_calls_wait(), ghost_waited(*)
 
 //@ immutable Cache.cache, cache.nodeManager, cache.hashmap, cache.evictionPolicy, cache.expirationPolicy, cache.stats, cache.clock, cache.singleflight, cache.withTime, cache.withExpiration, cache.withRefresh, cache.withEviction, cache.isWeighted, cache.withMaintenance, cache.withStats, cache.onDeletion, cache.onAtomicDeletion, cache.expiryCalculator, cache.refreshCalculator, cache.weigher, cache.executor, cache.readBuffer, cache.writeBuffer, cache.hasDefaultExecutor, policy.isWeighted, policy.sketch, policy.window, policy.probation, policy.protected, group.calls, G:hasExp, G:hasRefresh, G:hasWeight, G:hasSize, G:hasState, G:hasExpLinks, G:key, G:value, G:weight, call.key, call.isRefresh, call.isFake
 
 //@ func (*cache).scheduleDrainBuffers : C01 C03 C12 C20
+//@   var tstar *task[K, V]
 //@   assumed footprint of a maintenance run triggered through the executor (C14 is not applicable); the run itself is (*cache).maintenance, verified below, which keeps the wiring
 //@   modifies $MAINT
 //@   ensures [wiring-kept] pre(wired(c)) ==> wired(c)
 //@   ensures [clock-stable] pre(ghost_clockRead()) ==> ghost_clockRead() && ghost_now() == pre(ghost_now())
+//@   ensures [events-outside-the-buffer-untouched] !pre(ghost_buffered(tstar)) ==> tstar.n == pre(tstar.n) && tstar.old == pre(tstar.old) && tstar.writeReason == pre(tstar.writeReason) && tstar.deletionCause == pre(tstar.deletionCause)
+
+//@ macro ACCESSFX = node::queueType, node::prev, node::next, node::prevExp, node::nextExp, ghost_inWheel(*), ghost_inDeque(*), policy::windowWeightedSize, policy::mainProtectedWeightedSize, policy::hitsInSample, Linked::*, sketch::*, []uint64::*
+
+//@ func (*policy).access : C05 C18
+//@   requires ghost_hasSize() && wfPolicy(p) && n != nil
+//@   modifies node::queueType, $LINKFX, ghost_inDeque(*), p.mainProtectedWeightedSize, p.hitsInSample, sketch::*, []uint64::*
+//@   ensures [policy-wf-kept] wfPolicy(p)
+//@   ensures [C05:a-read-removes-nothing] p.weightedSize == pre(p.weightedSize)
+//@   ensures [C05:accessed-node-stays-linked-in-its-queue] pre(ghost_inDeque(queueOf(p, n), n)) ==> ghost_inDeque(queueOf(p, n), n)
+
+//@ func (*cache).onAccess : C05 C13
+//@   requires cfg(c) && n != nil
+//@   modifies $ACCESSFX
+//@   ensures [wiring-kept] wired(c)
+//@   ensures [C05:a-read-removes-nothing] !c.withEviction || c.evictionPolicy.weightedSize == pre(c.evictionPolicy.weightedSize)
 
 //@ func (*cache).drainReadBuffer : C05
-//@   assumed C17 is not applicable: applies the recorded reads to the policies (recency order, frequency, wheel position); it removes nothing and reports nothing
-//@   modifies node::queueType, node::prev, node::next, node::prevExp, node::nextExp, ghost_inWheel(*), ghost_inDeque(*), policy::weightedSize, policy::windowMaximum, policy::windowWeightedSize, policy::mainProtectedMaximum, policy::mainProtectedWeightedSize, policy::stepSize, policy::adjustment, policy::hitsInSample, policy::missesInSample, policy::previousSampleHitRate, Linked::*, sketch::*, []uint64::*
-//@   ensures [wiring-kept] pre(wired(c)) ==> wired(c)
+//@   requires cfg(c)
+//@   modifies $ACCESSFX
+//@   site DrainTo: callback-invariant cfg(c)
+//@   ensures [wiring-kept] wired(c)
 
 //@ func (*cache).drainWriteBuffer : C05 C06
-//@   assumed C16 is not applicable: applies the buffered write events through runTask (verified below); the events it recycles are owned by the buffer, so a task the caller still holds is not touched
-//@   modifies $MAINT0, ghost_calls_runTask()
-//@   ensures [wiring-kept] pre(wired(c)) ==> wired(c)
+//@   var tstar *task[K, V]
+//@   requires cfg(c)
+//@   modifies $MAINT0, ghost_calls_runTask(), task::*
+//@   site TryPop: assume [A-buffer] t == nil || (taskWf(t) && ghost_buffered(t))
+//@   note A-buffer (C16 is not applicable): an event handed out by the write buffer is an event that was pushed; events are well-formed when pushed (afterWriteTask requires taskWf of the event it pushes) and the buffer owns them in between
+//@   loop 1: invariant [wiring] wired(c)
+//@   loop 1: invariant [C05:events-outside-the-buffer-untouched] !pre(ghost_buffered(tstar)) ==> tstar.n == pre(tstar.n) && tstar.old == pre(tstar.old) && tstar.writeReason == pre(tstar.writeReason) && tstar.deletionCause == pre(tstar.deletionCause)
+//@   loop 1: invariant [clock-stable] pre(ghost_clockRead()) ==> ghost_clockRead() && ghost_now() == pre(ghost_now())
+//@   ensures [wiring-kept] wired(c)
 //@   ensures [clock-stable] pre(ghost_clockRead()) ==> ghost_clockRead() && ghost_now() == pre(ghost_now())
+//@   ensures [C05:events-outside-the-buffer-untouched] !pre(ghost_buffered(tstar)) ==> tstar.n == pre(tstar.n) && tstar.old == pre(tstar.old) && tstar.writeReason == pre(tstar.writeReason) && tstar.deletionCause == pre(tstar.deletionCause)
 
 //@ func (*cache).climb : C04 C05
-//@   assumed hill climber (floating-point arithmetic, outside the verifier's reach): moves entries between the window and the main queues; it removes nothing and reports nothing
-//@   modifies node::queueType, node::prev, node::next, ghost_inDeque(*), policy::weightedSize, policy::windowMaximum, policy::windowWeightedSize, policy::mainProtectedMaximum, policy::mainProtectedWeightedSize, policy::stepSize, policy::adjustment, policy::hitsInSample, policy::missesInSample, policy::previousSampleHitRate, Linked::*
-//@   ensures [wiring-kept] pre(wired(c)) ==> wired(c)
+//@   requires cfg(c)
+//@   modifies node::queueType, node::prev, node::next, node::prevExp, node::nextExp, ghost_inDeque(*), policy::windowMaximum, policy::windowWeightedSize, policy::mainProtectedMaximum, policy::mainProtectedWeightedSize, policy::stepSize, policy::adjustment, policy::hitsInSample, policy::missesInSample, policy::previousSampleHitRate, Linked::*
+//@   ensures [wiring-kept] wired(c)
+//@   ensures [C04:climbing-removes-nothing] !c.withEviction || c.evictionPolicy.weightedSize == pre(c.evictionPolicy.weightedSize)
 
 //@ func (*cache).expireNodes : C13 C07 C06
 //@   counted
@@ -452,9 +486,10 @@ func estOf[K comparable](s *sketch[K], k K) uint64 {
 //@   ensures [clock-stable] pre(ghost_clockRead()) ==> ghost_clockRead() && ghost_now() == pre(ghost_now())
 
 //@ func (*cache).maintenance : C01 C03 C19 C05 C06 C13 C04
+//@   var tstar *task[K, V]
 //@   counted
-//@   requires cfg(c) && (t != nil ==> c.withMaintenance && taskWf(t))
-//@   modifies $MAINT0, t.n, t.old, t.writeReason, t.deletionCause, ghost_calls_runTask(), ghost_calls_expireNodes(), ghost_calls_evictNodes(), ghost_calls_DeleteExpired(), ghost_calls_deleteExpiredFromBucket(), ghost_calls_expireNode(), ghost_now(), ghost_clockRead()
+//@   requires cfg(c) && (t != nil ==> c.withMaintenance && taskWf(t) && !ghost_buffered(t))
+//@   modifies $MAINT0, t.n, t.old, t.writeReason, t.deletionCause, ghost_calls_runTask(), ghost_calls_expireNodes(), ghost_calls_evictNodes(), ghost_calls_DeleteExpired(), ghost_calls_deleteExpiredFromBucket(), ghost_calls_expireNode(), ghost_now(), ghost_clockRead(), task::*
 //@   ensures [wiring-kept] wired(c)
 //@   ensures [C05:handed-event-applied-after-the-buffered-ones] ghost_last_runTask_t[K, V]() == t
 //@   site evictNodes: requires [C13:expired-entries-swept-before-size-eviction] ghost_calls_expireNodes() == pre(ghost_calls_expireNodes()) + 1
@@ -462,6 +497,7 @@ func estOf[K comparable](s *sketch[K], k K) uint64 {
 //@   ensures [C04:size-eviction-runs-every-maintenance] ghost_calls_evictNodes() == pre(ghost_calls_evictNodes()) + 1
 //@   ensures [C13:sweep-runs-every-maintenance] ghost_calls_expireNodes() == pre(ghost_calls_expireNodes()) + 1
 //@   ensures [clock-stable] pre(ghost_clockRead()) ==> ghost_clockRead() && ghost_now() == pre(ghost_now())
+//@   ensures [C05:other-events-outside-the-buffer-untouched] tstar != t && !pre(ghost_buffered(tstar)) ==> tstar.n == pre(tstar.n) && tstar.old == pre(tstar.old) && tstar.writeReason == pre(tstar.writeReason) && tstar.deletionCause == pre(tstar.deletionCause)
 
 //@ func (*cache).afterRead : C01 C03 C12 C20
 //@   requires cfg(c) && nowNano >= 0 && got != nil
@@ -722,29 +758,33 @@ func estOf[K comparable](s *sketch[K], k K) uint64 {
 
 // policy notification entry points (bodies verified in the C05/C06 block)
 //@ func (*cache).scheduleAfterWrite : C05 C06
+//@   var tstar *task[K, V]
 //@   assumed drain-status protocol (C14 is not applicable); footprint of a possibly triggered maintenance run, which keeps the wiring (see (*cache).maintenance)
 //@   modifies $MAINT
 //@   ensures [wiring-kept] pre(wired(c)) ==> wired(c)
 //@   ensures [clock-stable] pre(ghost_clockRead()) ==> ghost_clockRead() && ghost_now() == pre(ghost_now())
+//@   ensures [events-outside-the-buffer-untouched] !pre(ghost_buffered(tstar)) ==> tstar.n == pre(tstar.n) && tstar.old == pre(tstar.old) && tstar.writeReason == pre(tstar.writeReason) && tstar.deletionCause == pre(tstar.deletionCause)
 
 //@ func (*cache).performCleanUp : C05 C06 C04 C13
+//@   var tstar *task[K, V]
 //@   counted
-//@   requires cfg(c) && (t != nil ==> c.withMaintenance && taskWf(t))
-//@   modifies $MAINT, t.n, t.old, t.writeReason, t.deletionCause
+//@   requires cfg(c) && (t != nil ==> c.withMaintenance && taskWf(t) && !ghost_buffered(t))
+//@   modifies $MAINT, t.n, t.old, t.writeReason, t.deletionCause, task::*
 //@   ensures [wiring-kept] wired(c)
 //@   site rescheduleCleanUpIfIncomplete: requires [C05:handed-event-reaches-maintenance] ghost_calls_maintenance() == pre(ghost_calls_maintenance()) + 1 && ghost_last_maintenance_t[K, V]() == t
 //@   ensures [clock-stable] pre(ghost_clockRead()) ==> ghost_clockRead() && ghost_now() == pre(ghost_now())
+//@   ensures [C05:other-events-outside-the-buffer-untouched] tstar != t && !pre(ghost_buffered(tstar)) ==> tstar.n == pre(tstar.n) && tstar.old == pre(tstar.old) && tstar.writeReason == pre(tstar.writeReason) && tstar.deletionCause == pre(tstar.deletionCause)
 
 //@ func (*cache).getTask : C05 C06
 //@   counted
 //@   modifies task::n, task::old, task::writeReason, task::deletionCause
 //@   ensures [C05:task-carries-the-write] result != nil && result.n == n && result.old == old && result.writeReason == writeReason && result.deletionCause == cause
 
-//@ func (*cache).afterWriteTask : C05 C06 C04
+//@ func (*cache).afterWriteTask : C05 C06 C04 C13
 //@   counted
-//@   requires cfg(c) && c.withMaintenance && t != nil && taskWf(t)
-//@   modifies $MAINT, $EVLOG, $ONDEL, ghost_queued(), ghost_calls_performCleanUp(), t.n, t.old, t.writeReason, t.deletionCause
-//@   loop 1: invariant [wiring] wired(c) && taskWf(t)
+//@   requires cfg(c) && c.withMaintenance && t != nil && taskWf(t) && !ghost_buffered(t)
+//@   modifies $MAINT, $EVLOG, $ONDEL, ghost_queued(), ghost_calls_performCleanUp(), t.n, t.old, t.writeReason, t.deletionCause, ghost_buffered(*)
+//@   loop 1: invariant [wiring] wired(c) && taskWf(t) && !ghost_buffered(t)
 //@   loop 1: invariant [not-yet-accepted] ghost_queued() == pre(ghost_queued()) && ghost_calls_performCleanUp() == pre(ghost_calls_performCleanUp()) && i >= 0
 //@   ensures [C05:write-event-never-dropped] (ghost_queued() == pre(ghost_queued())+1 && ghost_calls_performCleanUp() == pre(ghost_calls_performCleanUp())) || (ghost_queued() == pre(ghost_queued()) && ghost_calls_performCleanUp() == pre(ghost_calls_performCleanUp())+1 && ghost_last_performCleanUp_t[K, V]() == t)
 //@   ensures [clock-stable] pre(ghost_clockRead()) ==> ghost_clockRead() && ghost_now() == pre(ghost_now())
@@ -753,13 +793,15 @@ func estOf[K comparable](s *sketch[K], k K) uint64 {
 //@ func (*cache).afterWrite : C01 C03 C05 C06 C09
 //@   counted
 //@   requires cfg(c) && n != nil && n != old
-//@   modifies $MAINT, $EVLOG, $ONDEL, ghost_queued(), ghost_calls_performCleanUp(), ghost_calls_afterWriteTask(), ghost_calls_getTask(), task::*
+//@   modifies $MAINT, $EVLOG, $ONDEL, ghost_queued(), ghost_calls_performCleanUp(), ghost_calls_afterWriteTask(), ghost_calls_getTask(), task::*, ghost_buffered(*)
 //@   ensures [C06:replacement-reported-without-maintenance] !c.withMaintenance && old != nil && c.onDeletion != nil ==> ghost_calls_onDeletion() == pre(ghost_calls_onDeletion()) + 1 && same(ghost_arg_onDeletion_1[V](), ghost_value(old)) && ghost_arg_onDeletion_2() == CauseReplacement
 //@   site afterWriteTask: requires [C05:event-carries-the-written-nodes] ghost_last_getTask_result[K, V]() != nil && ghost_last_getTask_result[K, V]().n == n && ghost_last_getTask_result[K, V]().old == old
 //@   site afterWriteTask: requires [C06:event-carries-truthful-cause] (old == nil ==> ghost_last_getTask_result[K, V]().writeReason == addReason) && (old != nil ==> ghost_last_getTask_result[K, V]().writeReason == updateReason && ghost_last_getTask_result[K, V]().deletionCause == pickCause(live(old, nowNano), CauseReplacement, CauseExpiration))
 //@   ensures [C05:one-write-event-per-write] c.withMaintenance ==> ghost_calls_afterWriteTask() == pre(ghost_calls_afterWriteTask()) + 1 && ghost_last_afterWriteTask_t[K, V]() == ghost_last_getTask_result[K, V]()
 //@   ensures [clock-stable] pre(ghost_clockRead()) ==> ghost_clockRead() && ghost_now() == pre(ghost_now())
 //@   ensures [wiring-kept] pre(wired(c)) ==> wired(c)
+//@   site getTask: assume [A-buffer] !ghost_buffered(ghost_last_getTask_result[K, V]())
+//@   note A-buffer: an event object taken from the pool is not in the write buffer (events are returned to the pool only after they were handed out by the buffer or applied directly)
 
 //@ func (*cache).runTask : C05 C06 C04 C07
 //@   counted
@@ -777,13 +819,15 @@ func estOf[K comparable](s *sketch[K], k K) uint64 {
 //@ func (*cache).afterDelete : C01 C03 C05 C06 C09
 //@   counted
 //@   requires cfg(c)
-//@   modifies $MAINT, $EVLOG, $ONDEL, ghost_queued(), ghost_calls_performCleanUp(), ghost_calls_afterWriteTask(), ghost_calls_runTask(), ghost_calls_getTask(), task::*
+//@   modifies $MAINT, $EVLOG, $ONDEL, ghost_queued(), ghost_calls_performCleanUp(), ghost_calls_afterWriteTask(), ghost_calls_runTask(), ghost_calls_getTask(), task::*, ghost_buffered(*)
 //@   site afterWriteTask: requires [C05:delete-event-carries-the-removed-node] ghost_last_getTask_result[K, V]() != nil && ghost_last_getTask_result[K, V]().n == deleted && ghost_last_getTask_result[K, V]().writeReason == deleteReason && ghost_last_getTask_result[K, V]().deletionCause == pickCause(live(deleted, nowNano), CauseInvalidation, CauseExpiration)
 //@   ensures [C05:nothing-removed-nothing-told] deleted == nil ==> ghost_calls_afterWriteTask() == pre(ghost_calls_afterWriteTask()) && ghost_calls_runTask() == pre(ghost_calls_runTask()) && ghost_calls_onDeletion() == pre(ghost_calls_onDeletion())
 //@   ensures [C06:invalidation-reported-without-maintenance] deleted != nil && !c.withMaintenance && c.onDeletion != nil ==> ghost_calls_onDeletion() == pre(ghost_calls_onDeletion()) + 1 && same(ghost_arg_onDeletion_1[V](), ghost_value(deleted))
 //@   ensures [C05:one-delete-event-per-removal] deleted != nil && c.withMaintenance ==> (alreadyLocked ==> ghost_calls_runTask() == pre(ghost_calls_runTask()) + 1 && ghost_last_runTask_t[K, V]() == ghost_last_getTask_result[K, V]() && ghost_calls_afterWriteTask() == pre(ghost_calls_afterWriteTask())) && (!alreadyLocked ==> ghost_calls_afterWriteTask() == pre(ghost_calls_afterWriteTask()) + 1 && ghost_last_afterWriteTask_t[K, V]() == ghost_last_getTask_result[K, V]())
 //@   ensures [clock-stable] pre(ghost_clockRead()) ==> ghost_clockRead() && ghost_now() == pre(ghost_now())
 //@   ensures [wiring-kept] pre(wired(c)) ==> wired(c)
+//@   site getTask: assume [A-buffer] !ghost_buffered(ghost_last_getTask_result[K, V]())
+//@   note A-buffer: an event object taken from the pool is not in the write buffer (events are returned to the pool only after they were handed out by the buffer or applied directly)
 
 //@ func (*cache).getNode : C01 C03 C20 C12
 //@   requires cfg(c) && nowNano >= 0
@@ -823,7 +867,7 @@ func estOf[K comparable](s *sketch[K], k K) uint64 {
 //@   ensures [C12:entry-deadline-is-node-deadline] r1 && c.withExpiration ==> r0.ExpiresAtNano == ghost_expiresAt(ghost_tbl(c.hashmap, key))
 //@   ensures [C20:quiet] ghost_hits() == pre(ghost_hits()) && ghost_misses() == pre(ghost_misses())
 
-//@ func (*cache).set : C01 C03 C06 C09 C20 C05
+//@ func (*cache).set : C01 C03 C06 C09 C20 C05 C13
 //@   inline verified on its own and inlined into Set / SetIfAbsent
 //@   mode seq,itf
 //@   requires cfg(c) && c.singleflight != nil
@@ -855,7 +899,7 @@ func estOf[K comparable](s *sketch[K], k K) uint64 {
 //@   ensures [C01:present-kept] lp(live(ghost_tbl(c.hashmap, key), ghost_now())) ==> !r1 && same(r0, lp(ghost_value(ghost_tbl(c.hashmap, key)))) && lpend(ghost_lpNew(c.hashmap)) == lpend(ghost_lpCur(c.hashmap))
 //@   ensures [wiring-kept] pre(wired(c)) ==> wired(c)
 
-//@ func (*cache).Invalidate : C01 C03 C06 C09 C20 C05
+//@ func (*cache).Invalidate : C01 C03 C06 C09 C20 C05 C13
 //@   mode seq,itf
 //@   requires cfg(c) && c.singleflight != nil
 //@   modifies *
@@ -879,7 +923,7 @@ func estOf[K comparable](s *sketch[K], k K) uint64 {
 //@   ensures [C09:eviction-clears-call] c.singleflight.isInitialized.Load() ==> lpend(ghost_calls(c.singleflight.calls, ghost_key(n))) == nil
 //@   ensures [C05:removed-node-retired] result != nil && c.withMaintenance && lp(alive(n)) ==> lpend(ghost_state(n)) == 1
 
-//@ func (*cache).doCompute : C01 C03 C06 C09 C20 C05 C08
+//@ func (*cache).doCompute : C01 C03 C06 C09 C20 C05 C08 C13
 //@   mode seq,itf
 //@   panics
 //@   inline verified on its own and inlined into Compute / ComputeIfAbsent / ComputeIfPresent (their wrapper closures are executed concretely)
@@ -1017,16 +1061,18 @@ func estOf[K comparable](s *sketch[K], k K) uint64 {
 //@   ensures [C10:error-recorded] c.err == err && c.isNotFound == errors.Is(err, ErrNotFound)
 //@   own-modifies c.value, c.err, c.isNotFound, ghost_calls_load()
 
-//@ func (*call).wait : C08
+//@ func (*call).wait : C08 C10
+//@   assumed definition of the ghost ghost_waited: sync.WaitGroup.Wait returns only after the call's Done, i.e. after its outcome fields are final
 //@   counted
-//@   note blocks until the call is finished (sync.WaitGroup.Wait); only the fact that it was invoked, and on which call, is recorded
-//@   ensures [wait-is-pure] true
+//@   note blocks until the call is finished (sync.WaitGroup.Wait); the contract records that, and on which call, it was invoked
+//@   modifies ghost_waited(c)
+//@   ensures [finished-when-it-returns] ghost_waited(c)
 
 //@ func (*call).cancel : C08
 //@   modifies ghost_wgDone(c), c.wg
 //@   ensures [C08:release-once] ghost_wgDone(c) == pre(ghost_wgDone(c)) + pickInt(c.isFake, 0, 1)
 
-//@ func (*cache).afterDeleteCall : C09 C10 C08 C11 C06 C01 C03
+//@ func (*cache).afterDeleteCall : C09 C10 C08 C11 C06 C01 C03 C13 C12
 //@   mode seq,itf
 //@   requires cfg(c) && c.singleflight != nil && cl != nil && c.singleflight.calls != nil && c.singleflight.isInitialized.Load()
 //@   modifies $CACHEFX
@@ -1045,13 +1091,14 @@ func estOf[K comparable](s *sketch[K], k K) uint64 {
 //@   ensures [wiring-kept] pre(wired(c)) ==> wired(c)
 //@   site cancel: requires [C08:waiters-released-only-after-the-record-is-gone] ghost_lpCount(c.hashmap) == pre(ghost_lpCount(c.hashmap)) + 1
 
-//@ func (*cache).wrapLoad : C20 C08
+//@ func (*cache).wrapLoad : C20 C08 C10
 //@   inline verified on its own and inlined at its call sites (the closure it runs is executed concretely)
 //@   note fn is always a closure around doCall / doBulkCall, which recover loader panics and return them as errors; wrapLoad re-raises them after recording the load
 //@   requires cfg(c)
 //@   modifies ghost_loadSuccess(), ghost_loadFailure(), ghost_calls_fn(), ghost_ret_fn()
 //@   ensures [C20:load-counted-once] ghost_loadSuccess()+ghost_loadFailure() == pre(ghost_loadSuccess()+ghost_loadFailure()) + 1 && ghost_calls_fn() == pre(ghost_calls_fn()) + 1
 //@   ensures [C20:success-iff-no-error-or-notfound] ghost_loadSuccess() == pre(ghost_loadSuccess()) + pickU64(ghost_ret_fn() == nil || errors.Is(ghost_ret_fn(), ErrNotFound), 1, 0)
+//@   ensures [C10:load-error-passed-through] result == ghost_ret_fn()
 //@   ensures on-panic [C20:load-counted-once-on-panic] ghost_loadSuccess()+ghost_loadFailure() == pre(ghost_loadSuccess()+ghost_loadFailure()) + 1 && ghost_calls_fn() == pre(ghost_calls_fn()) + 1
 
 // ---------------------------------------------------------------------------------------------
@@ -1081,6 +1128,40 @@ func estOf[K comparable](s *sketch[K], k K) uint64 {
 //@   ensures [C07:unbounded-cache-ignores-it] !c.withEviction ==> ghost_calls_maintenance() == pre(ghost_calls_maintenance()) && ghost_calls_notifyDeletion() == pre(ghost_calls_notifyDeletion())
 //@   ensures [wiring-kept] wired(c)
 //@   ensures [clock-stable] pre(ghost_clockRead()) ==> ghost_clockRead() && ghost_now() == pre(ghost_now())
+
+//@ macro CLIMBFX = node::queueType, $LINKFX, ghost_inDeque(*), p.mainProtectedWeightedSize, p.windowWeightedSize, p.mainProtectedMaximum, p.windowMaximum, p.adjustment
+
+//@ func (*policy).determineAdjustment : C04
+//@   assumed floating-point part of the hill climber (uninterpreted arithmetic): picks the next adjustment and step size from the sampled hit rate
+//@   modifies p.previousSampleHitRate, p.missesInSample, p.hitsInSample, p.adjustment, p.stepSize
+
+//@ func (*policy).demoteFromMainProtected : C04 C05
+//@   requires ghost_hasSize() && wfPolicy(p)
+//@   modifies node::queueType, $LINKFX, ghost_inDeque(*), p.mainProtectedWeightedSize
+//@   loop 1: invariant [policy-wf] wfPolicy(p) && i >= 0
+//@   site PushBack: requires [C05:demoted-node-left-the-protected-queue] demoted != nil && !ghost_inDeque(p.protected, demoted)
+//@   ensures [policy-wf-kept] wfPolicy(p)
+
+//@ func (*policy).increaseWindow : C04 C05
+//@   requires ghost_hasSize() && wfPolicy(p)
+//@   modifies $CLIMBFX
+//@   loop 1: invariant [policy-wf] wfPolicy(p) && i >= 0
+//@   site Delete: requires [C05:moved-out-of-the-queue-it-is-in] candidate != nil && (probation ==> ghost_inDeque(p.probation, candidate)) && (!probation ==> ghost_inDeque(p.protected, candidate))
+//@   site PushBack: requires [C05:relinked-only-after-unlinking] candidate != nil && (probation ==> !ghost_inDeque(p.probation, candidate)) && (!probation ==> !ghost_inDeque(p.protected, candidate))
+//@   ensures [policy-wf-kept] wfPolicy(p)
+
+//@ func (*policy).decreaseWindow : C04 C05
+//@   requires ghost_hasSize() && wfPolicy(p)
+//@   modifies $CLIMBFX
+//@   loop 1: invariant [policy-wf] wfPolicy(p) && i >= 0
+//@   site Delete: requires [C05:moved-out-of-the-queue-it-is-in] candidate != nil && ghost_inDeque(p.window, candidate)
+//@   site PushBack: requires [C05:relinked-only-after-unlinking] candidate != nil && !ghost_inDeque(p.window, candidate)
+//@   ensures [policy-wf-kept] wfPolicy(p)
+
+//@ func (*policy).climb : C04 C05
+//@   requires ghost_hasSize() && wfPolicy(p)
+//@   modifies $CLIMBFX, p.previousSampleHitRate, p.missesInSample, p.hitsInSample, p.stepSize
+//@   ensures [policy-wf-kept] wfPolicy(p)
 
 //@ func (*policy).makeDead : C04 C05 C07
 //@   requires ghost_hasSize() && ghost_hasState() && n != nil
@@ -1259,6 +1340,7 @@ func estOf[K comparable](s *sketch[K], k K) uint64 {
 //@   ensures [wiring-kept] pre(wired(c)) ==> wired(c)
 
 //@ func (*cache).bulkRefreshKeys : C10 C11
+//@   counted
 //@   assumed footprint only (its loops over the refresh set are not under contract yet)
 //@   modifies $LOADFX
 //@   ensures [clock-stable] pre(ghost_clockRead()) ==> ghost_clockRead() && ghost_now() == pre(ghost_now())
@@ -1279,9 +1361,12 @@ func estOf[K comparable](s *sketch[K], k K) uint64 {
 //@   loop 2: invariant [C10:calls-only-for-misses] result != nil && !(mapHas(result, kstar) && mapHas(misses, kstar)) && (mapHas(toLoadCalls, kstar) ==> mapHas(misses, kstar)) && ghost_calls_doBulkCall() == pre(ghost_calls_doBulkCall())
 //@   loop 2: invariant [call-map-wf] !same(toLoadCalls, misses) && (mapHas(toLoadCalls, kstar) ==> toLoadCalls[kstar] != nil && same(toLoadCalls[kstar].key, kstar))
 //@   loop 2: invariant [misses-get-their-call] ghost_visited(kstar) && mapHas(misses, kstar) ==> misses[kstar] != nil
+//@   loop 3: invariant [C08:results-come-only-from-calls-that-were-waited-for] mapHas(result, kstar) && mapHas(misses, kstar) ==> ghost_waited(misses[kstar])
 //@   loop 3: invariant [C10:failed-or-unsupplied-keys-stay-absent] result != nil && (mapHas(misses, kstar) ==> misses[kstar] != nil) && (mapHas(result, kstar) && mapHas(misses, kstar) ==> misses[kstar].err == nil)
 //@   ensures [C10:loader-at-most-once-per-call] ghost_calls_doBulkCall() == pre(ghost_calls_doBulkCall()) || ghost_calls_doBulkCall() == pre(ghost_calls_doBulkCall())+1
 //@   ensures [C10:result-map-returned] r0 != nil
+//@   ensures [C11:stale-hits-are-handed-to-the-refresher-on-every-return] ghost_calls_bulkRefreshKeys() == pre(ghost_calls_bulkRefreshKeys()) + 1
+//@   site bulkRefreshKeys: requires [C11:refresh-before-any-load-can-fail] ghost_calls_doBulkCall() == pre(ghost_calls_doBulkCall())
 //@   site doBulkCall: callback-invariant cfg(c) && c.singleflight.calls != nil && c.singleflight.isInitialized.Load()
 
 //@   ensures [wiring-kept] pre(wired(c)) ==> wired(c)
